@@ -277,7 +277,7 @@ def run(ctx):
     jobs = []
     for _ in range(ctx.pick(48, 600)):
         n = r.choice([2, 2, 3])
-        pool = ["P", "Q", "P", "Q", "A", "Z"]
+        pool = ["P", "Q", "P", "Q", "A", "Z", "M", "D", "M"]        # (M, D: sections late in the format's enumeration of track headers)
         threads = [[r.choice(pool) for _ in range(r.choice([1, 2]))] for _ in range(n)]
         slots = [r.randrange(n) for _ in range(r.choice([200, 1000, 4000]))]
         chunk = [r.choice([1, 2, 3, 5, 11, 40, 170]) for _ in range(n)]
@@ -302,6 +302,20 @@ def run(ctx):
         add(f"so{k}h", "history-after-schedule", o[1], {"history": ["P", "Q", "A"], "after": {"threads": j["threads"], "chunk": j["chunk"]}})
         sw += o[0]["switches"]
     ctx.extra["bytecode_level_thread_switches"] = sw
+    # ---- single preemption, cold start: in a fresh interpreter thread 0 starts the FIRST parse of the process, is suspended
+    # after H source lines, thread 1 parses to completion, thread 0 resumes - H swept through the whole parse.  (Whatever the
+    # first parse of a process sets up lazily must never be seen half-done by the second.)
+    jobs = []
+    for a_txt, b_txt in (("M", "M"), ("D", "M"), ("M", "D"), ("A", "M")):
+        L = pts[a_txt]["line"]
+        step = max(1, L // ctx.pick(90, 1200))
+        for H in range(1, L, step):
+            jobs.append({"kind": "schedule", "threads": [[a_txt], [b_txt]], "sched": [0, 1, 0], "chunk": [H, 10**9], "granularity": "line", "clear": False})
+    ctx.extra["single_preemption_cold_start_schedules"] = len(jobs)
+    with cf.ThreadPoolExecutor(max_workers=WORKERS) as ex:
+        outs = list(ex.map(lambda j: run_jobs(texts, wants, [j])[0], jobs))
+    for k, (j, o) in enumerate(zip(jobs, outs)):
+        add(f"sp{k}", "single-preemption-cold-start", o, {"threads": j["threads"], "sched": j["sched"], "chunk": j["chunk"], "clear": False})
     # ---- free-running threads with a 1 microsecond switch interval
     jobs = [{"kind": "stress", "threads": [[r.choice(names) for _ in range(6)] for _ in range(8)], "switch": 1e-6} for _ in range(ctx.pick(4, 32))]
     with cf.ThreadPoolExecutor(max_workers=4) as ex:
